@@ -389,8 +389,13 @@ impl ValueSetT for ValueSetKeyInternal {
 
         for (k_other, v_other) in b.iter() {
             if let Some(v_self) = map.get_mut(k_other) {
-                // Revoked is always a greater status than retained or valid.
-                if v_other.status > v_self.status {
+                // Revoked is always a greater status than retained or valid. When both
+                // sides hold the same status, the earliest status change is kept (as
+                // sessions do for revocations) so that the result does not depend on
+                // the order in which replicas merge.
+                if v_other.status > v_self.status
+                    || (v_other.status == v_self.status && v_other.status_cid < v_self.status_cid)
+                {
                     *v_self = v_other.clone();
                 }
             } else {
